@@ -213,7 +213,7 @@ def random_archives(ctx, rng, n):
                 ctx.violation({"variant": "random-archives", "fail": "listing"}, {"members": r["members"], "listed": r["listed"]})
 
 
-def sample_roundtrip(ctx):
+def _sample_roundtrip_body(ctx):
     """B: the committed fixture is read with the real reader, its members re-encoded by the independent writer and re-read."""
     import os
     from dissect.hypervisor.util import vmtar
@@ -253,3 +253,13 @@ def replay(ctx, body):
                                   extra_tail=bytes(var.get("tail", 0)))
         ok = check_archive(ctx, ms, members, blob, var["id"], {"variant": var["id"]}) and ok
     return ok
+
+
+def sample_roundtrip(ctx):
+    try:
+        _sample_roundtrip_body(ctx)
+    except core.MachineryError:
+        raise
+    except Exception as e:  # noqa: BLE001  (the code under test raised on the committed sample)
+        import traceback
+        ctx.violation({"fail": "fixture-raised", "sub": "fixture", "exc": type(e).__name__}, {"error": repr(e)[:300], "tb": traceback.format_exc()[-1200:]})
